@@ -196,6 +196,10 @@ impl Stmt {
 
     /// raw rendering with generated attribute order / duplicated xmlns:jcmd / any jcmd prefix
     fn to_raw(&self) -> String {
+        self.to_raw_filtered(&StmtFilter::All)
+    }
+
+    fn to_raw_filtered(&self, filter: &StmtFilter) -> String {
         let p = &self.jcmd_prefix;
         let mut attrs: Vec<String> = Vec::new();
         let needs_ns = self.comment_value().is_some() || self.active.is_some();
@@ -230,9 +234,11 @@ impl Stmt {
             s.push_str(a);
         }
         s.push('>');
-        s.push_str(&format!("<name>{}</name>", escape_text(&self.name)));
+        if filter.keeps("name") {
+            s.push_str(&format!("<name>{}</name>", escape_text(&self.name)));
+        }
         let style = crate::xmlgen::Style::compact();
-        for b in self.body_x() {
+        for b in self.body_x().into_iter().filter(|b| filter.keeps(&b.name)) {
             // body elements are in the (default) xnm namespace of the enclosing configuration
             let r = crate::xmlgen::render_elem(&b, &style);
             s.push_str(&r.replace(" xmlns=\"http://xml.juniper.net/xnm/1.1/xnm\"", ""));
@@ -242,14 +248,74 @@ impl Stmt {
     }
 }
 
+/// What an RFC 6241 subtree filter on the running configuration leaves of a policy-statement.
+#[derive(Debug, Clone, PartialEq, Eq)]
+pub enum StmtFilter {
+    /// no filter, or `<policy-statement/>` as a selection node: the whole statement
+    All,
+    /// `<policy-statement>` with child selection nodes: only those children
+    Children(Vec<String>),
+    /// the filter does not select policy statements at all
+    Nothing,
+}
+
+impl StmtFilter {
+    pub fn keeps(&self, child: &str) -> bool {
+        match self {
+            StmtFilter::All => true,
+            StmtFilter::Children(c) => c.iter().any(|n| n == child),
+            StmtFilter::Nothing => false,
+        }
+    }
+    /// from the `<filter>` element of a `<get-config>` (containment and selection nodes only;
+    /// attribute and content match nodes are not interpreted)
+    pub fn from_request(filter: Option<&crate::xmlstrict::Elem>) -> Self {
+        let Some(f) = filter else { return StmtFilter::All };
+        if f.attr("type").is_some_and(|t| t != "subtree") {
+            return StmtFilter::All;
+        }
+        let Some(cfg) = f.child("configuration") else {
+            return if f.elems().next().is_none() { StmtFilter::Nothing } else { StmtFilter::Nothing };
+        };
+        if cfg.elems().next().is_none() {
+            return StmtFilter::All;
+        }
+        let Some(po) = cfg.child("policy-options") else { return StmtFilter::Nothing };
+        if po.elems().next().is_none() {
+            return StmtFilter::All;
+        }
+        let Some(ps) = po.child("policy-statement") else { return StmtFilter::Nothing };
+        let kids: Vec<String> = ps.elems().map(|e| e.local().to_string()).collect();
+        if kids.is_empty() {
+            StmtFilter::All
+        } else {
+            StmtFilter::Children(kids)
+        }
+    }
+}
+
 /// `<configuration>` element holding the statements (abstract tree)
 pub fn running_x(stmts: &[Stmt]) -> X {
+    running_x_filtered(stmts, &StmtFilter::All)
+}
+
+pub fn running_x_filtered(stmts: &[Stmt], filter: &StmtFilter) -> X {
     let mut cfg = X::container(Ns::Xnm, "configuration")
         .nsattr(Ns::Junos, "commit-seconds", "1709120869")
         .nsattr(Ns::Junos, "commit-user", "verif");
     let mut po = X::container(Ns::Xnm, "policy-options");
     for s in stmts {
-        po = po.kid(s.to_x());
+        if *filter == StmtFilter::Nothing {
+            break;
+        }
+        let mut x = s.to_x();
+        if let StmtFilter::Children(_) = filter {
+            x.kids.retain(|k| match k {
+                crate::xmlgen::XNode::E(e) => filter.keeps(&e.name),
+                _ => true,
+            });
+        }
+        po = po.kid(x);
     }
     // (an empty <policy-options> container is what the subtree filter leaves when no statement
     // exists)
@@ -259,13 +325,17 @@ pub fn running_x(stmts: &[Stmt]) -> X {
 
 /// the whole get-config reply, raw text, attribute order under the generator's control
 pub fn running_reply_raw(message_id: &str, stmts: &[Stmt]) -> String {
+    running_reply_raw_filtered(message_id, stmts, &StmtFilter::All)
+}
+
+pub fn running_reply_raw_filtered(message_id: &str, stmts: &[Stmt], filter: &StmtFilter) -> String {
     let mut s = format!(
         "<rpc-reply xmlns=\"urn:ietf:params:xml:ns:netconf:base:1.0\" xmlns:junos=\"http://xml.juniper.net/junos/23.1R0/junos\" message-id=\"{message_id}\">\n<data>\n<configuration xmlns=\"http://xml.juniper.net/xnm/1.1/xnm\" junos:commit-seconds=\"1709120869\">\n"
     );
-    if !stmts.is_empty() {
+    if !stmts.is_empty() && *filter != StmtFilter::Nothing {
         s.push_str("<policy-options>\n");
         for st in stmts {
-            s.push_str(&st.to_raw());
+            s.push_str(&st.to_raw_filtered(filter));
             s.push('\n');
         }
         s.push_str("</policy-options>\n");
